@@ -9,9 +9,11 @@ def sh(cmd, cwd=None, timeout=3600):
 rc, diff = sh('git diff --stat', wt)
 res = {'worktree': wt, 'diffstat': diff.strip().splitlines()[-1] if diff.strip() else 'NO CHANGE'}
 lines = open(os.path.join(out, 'demo.cc')).read().splitlines()
-cmd, on = [], False
+cmd, on, pre = [], False, []
 for l in lines:
     t = re.sub(r'^\s*(//|\*|/\*)\s?', '', l).rstrip()
+    if not on and re.match(r'^\s*[A-Za-z_]+=\S+(\s*;\s*[A-Za-z_]+=\S+)*\s*;?\s*$', t):
+        pre.append(t.strip().rstrip(';'))       # shell variables used by the build line (W=/tmp/wt/..; B=$W/_build)
     if not on and re.search(r'\bg\+\+\s', t):
         on = True
     if on:
@@ -22,6 +24,8 @@ build = ' '.join(cmd)
 build = re.sub(r'^\$\s*', '', build)
 build = re.split(r'\s&&\s|;', build)[0]
 build = re.sub(r'-o\s+\S+', '', build) + ' -o %s/demo_bin' % out
+if pre:
+    build = '; '.join(pre) + '; ' + build
 res['demo_build'] = build
 rc, o = sh('cmake --build _build -j8 2>&1 | tail -1; ctest --test-dir _build -j8 --timeout 900 2>&1 | grep -v memory_test | grep -E "tests passed|Failed"', wt)
 res['suite_with_change'] = o.strip().splitlines()[-3:]
